@@ -159,6 +159,25 @@ CHECKS["C14"] = dict(
     note="views installed through UpdateNodes/ActiveNode + an expiry hook that runs the real check_node_status; "
          "node ids are 1..n", design_ref="5 C14")
 
+_AUTHZ = ("TLA+ module Authz.tla states the requirements over a syntactic route classification; TLC enumerates the complete "
+          "request space from the route inventory of the RUNNING app (ResourceMap), the harness executes every request on the "
+          "real app + middleware in-process, and TLC evaluates every requirement on every observed decision")
+CHECKS["C16"] = dict(
+    engine="authz", technique=_AUTHZ,
+    text="Finite table property: every registered route of the main app x 6 path spellings x 4 methods x 5 token states x 5 "
+         "carriers is executed with OpenAPI auth on; NoDataWithoutToken and ValidTokenPasses are evaluated on all "
+         "observations. TLA+ is used here as exhaustive case enumerator and requirement evaluator, not as a temporal model.",
+    note="HTTP leg only so far: the gRPC request types and the cluster token are not yet driven (planned leg); tokens are "
+         "placed in the token cache directly", design_ref="5 C16")
+CHECKS["C17"] = dict(
+    engine="authz", technique=_AUTHZ,
+    text="Finite table property: every registered console route x 6 spellings x 4 methods x 11 credentials (no / garbage / "
+         "expired session, each role, role sets, unknown role) on the real console app with the real CheckLogin middleware; "
+         "LoginRequired, VisitorReadOnly, DeveloperLimits, Monotone, RoleSetIsUnion, VariantNotLooser evaluated on all.",
+    note="sessions are placed in the session cache directly; classification of routes (login / user management / transfer / "
+         "data write) is syntactic and lives in Authz.tla; unknown future routes fall under LoginRequired, Monotone and "
+         "RoleSetIsUnion only", design_ref="5 C17")
+
 NOT_YET = {}
 
 
